@@ -137,7 +137,8 @@ Inductive op :=
 | OAvail (id : Z) (a : bool)            (* BfeBackend.SetAvail on the backend with that id *)
 | OSetSS (t : Z)                        (* BalanceRR.SetSlowStart(t seconds) *)
 | OElapsed (id e : Z)                   (* clock seam: e milliseconds have passed since the ramp of backend id began *)
-| ORestart (id : Z).                    (* BfeBackend.SetRestart(true) (health check brought the backend back) *)
+| ORestart (id : Z)                     (* BfeBackend.SetRestart(true) (health check brought the backend back) *)
+| OConn (id n : Z).                     (* connNum of backend id := n (only used by the least-connection model, Wlc.v) *)
 
 Fixpoint picks_by (ch : st -> nat) (bs : list backend) (k : nat) {struct k} : list Z * list backend :=
   match k with
@@ -320,6 +321,7 @@ Definition apply_op2 (st : Z * list sb) (o : op) : Z * list sb :=
   | OSetSS t => (t, l)
   | OElapsed id e => (T, set_elapsed l id e)
   | ORestart id => (T, set_restart l id)
+  | OConn _ _ => st
   end.
 Fixpoint run2 (bal : list backend -> option (Z * list backend)) (st : Z * list sb) (ops : list op) : list (list Z) :=
   match ops with
